@@ -39,7 +39,7 @@ def plan(tier, seed):
 def mandatory_bins(tier):
     b = ["tagtype_%02x" % t for t in R.TAGTYPES] + ["ignored_%02x" % t for t in R.IGNORED]
     b += ["fmt_blob", "fmt_bf2compatible", "fmt_memoryimage", "page_crossing", "group_per_page", "one_group_all_pages", "debug_firmware", "release_firmware", "no_firmware_comment",
-          "multi_group_filter", "special_case_filter", "crc", "reboot", "versiondesc", "line_checksum_byte", "enforce_off_without_marker", "filter_comment_checked", "five_sections", "image_ge_64k"]
+          "multi_group_filter", "special_case_filter", "crc", "reboot", "versiondesc", "line_checksum_byte", "enforce_off_without_marker", "filter_comment_checked", "five_sections", "image_ge_64k", "source_is_a_file_name"]
     b += ["reject:" + c for c in REJECT_CLASSES] + ["mem_gap_before_last_line", "mem_many_extents"]
     return b
 
@@ -204,8 +204,24 @@ def import_case(ns, ctx, text, header, sections, rp, enforce=True, must_reject=N
     BF = ns.bf3file
     ctx.ev()
     ctx.distinct(text, enforce)
+    src = io.StringIO(text)
+    path = None
+    if len(text) % 8 == 3:
+        # the BF2 file given by NAME instead of as an open stream
+        import os
+        import tempfile
+
+        fd, path = tempfile.mkstemp(prefix="c13-", suffix=".bf2", dir=os.environ.get("VERIF_SCRATCH"))
+        with os.fdopen(fd, "w", newline="") as fh:
+            fh.write(text)
+        src = path
+        ctx.bin("source_is_a_file_name")
     try:
-        res = BF.Bf3File.bf2_import(io.StringIO(text), enforce) if not enforce or ctx.rng.random() < 0.5 else BF.Bf3File.bf2_import(io.StringIO(text))
+        try:
+            res = BF.Bf3File.bf2_import(src, enforce) if not enforce or ctx.rng.random() < 0.5 else BF.Bf3File.bf2_import(src)
+        finally:
+            if path:
+                os.unlink(path)
         ctx.mon("bf2_import")
     except Exception as e:
         ctx.exc(e)
